@@ -50,7 +50,59 @@ Section CostR.
     inversion Hp as [|? ? H0 Ht]; subst.
     pose proof (fold_integral cmin Hc t s0 (f0 RA) H0 Ht) as H. cbn [F f0 fadd RA map] in *. lra.
   Qed.
+  (* mechanical work: never below the net climb of the state cost plus weight x path length — in a metric space never
+     below max(c(last) - c(first), 0) + weight x direct distance, the admissible bound for a query *)
+  Lemma fold_work w : 0 <= w -> forall (t : list pt) (s0 : pt) (c : R),
+    let r := snd (fold_left (fun (acc : pt * F RA) (s : pt) => (s, fadd RA (snd acc) (work_motion RA S d w (fst acc) s))) t (s0, c)) in
+    c + w * plen S d (fst s0 :: map fst t) <= r /\ c + (snd (last t s0) - snd s0) + w * plen S d (fst s0 :: map fst t) <= r.
+  Proof.
+    intros Hw. induction t as [|s t IH]; intros s0 c; cbn [fold_left map snd fst].
+    - cbn [plen last]. split; lra.
+    - specialize (IH s (fadd RA c (work_motion RA S d w s0 s))). cbv zeta in IH.
+      assert (L : last (s :: t) s0 = last t s) by (clear; revert s; induction t as [|c t' IHt]; intros s; [reflexivity|]; cbn [last] in *; destruct t'; auto).
+      rewrite L. clear L.
+      assert (M : work_motion RA S d w s0 s = (if Rltb (snd s - snd s0) 0 then 0 else snd s - snd s0) + w * d (fst s0) (fst s)) by reflexivity.
+      change (plen S d (fst s0 :: fst s :: map fst t)) with (d (fst s0) (fst s) + plen S d (fst s :: map fst t)).
+      pose proof (d_nonneg (fst s0) (fst s)) as Hd.
+      destruct IH as (I1 & I2).
+      assert (E1 : c + w * (d (fst s0) (fst s) + plen S d (fst s :: map fst t)) <= fadd RA c (work_motion RA S d w s0 s) + w * plen S d (fst s :: map fst t)).
+      { rewrite M. cbn [F fadd RA]. change (F RA) with R in *. match goal with |- context [Rltb ?a ?b] => destruct (Rltb_spec a b) end; cbv iota; nra. }
+      assert (E2 : c + (snd (last t s) - snd s0) + w * (d (fst s0) (fst s) + plen S d (fst s :: map fst t)) <= fadd RA c (work_motion RA S d w s0 s) + (snd (last t s) - snd s) + w * plen S d (fst s :: map fst t)).
+      { rewrite M. cbn [F fadd RA]. change (F RA) with R in *. match goal with |- context [Rltb ?a ?b] => destruct (Rltb_spec a b) end; cbv iota; nra. }
+      split; [eapply Rle_trans; [exact E1|exact I1]|eapply Rle_trans; [exact E2|exact I2]].
+  Qed.
+  Theorem cost_work_lower_bounds w (p : list pt) (s0 : pt) : 0 <= w ->
+    w * plen S d (map fst (s0 :: p)) <= cost_work RA S d w (s0 :: p) /\
+    (snd (last p s0) - snd s0) + w * plen S d (map fst (s0 :: p)) <= cost_work RA S d w (s0 :: p).
+  Proof.
+    intros Hw. unfold cost_work, path_cost. pose proof (fold_work w Hw p s0 (f0 RA)) as H. cbv zeta in H.
+    cbn [F f0 fadd RA map] in *. change (F RA) with R in *. destruct H as (H1 & H2). split; lra.
+  Qed.
 End CostR.
+Section WorkMetric.
+  Variable S : Type.
+  Variable d : S -> S -> R.
+  Hypothesis d_refl : forall x, d x x = 0.
+  Hypothesis d_tri : forall x y z, d x z <= d x y + d y z.
+  Hypothesis d_nonneg : forall x y, 0 <= d x y.
+  Lemma last_map_fst : forall (p : list (pt RA S)) (s0 : pt RA S), last (map fst p) (fst s0) = fst (last p s0).
+  Proof. induction p as [|a t IH]; intros s0; [reflexivity|]. cbn [map]. destruct t as [|b t']; [reflexivity|]. change (last (fst a :: map fst (b :: t')) (fst s0)) with (last (map fst (b :: t')) (fst s0)). change (last (a :: b :: t') s0) with (last (b :: t') s0). apply IH. Qed.
+  Theorem cost_work_admissible_bound w (p : list (pt RA S)) (s0 : pt RA S) : 0 <= w ->
+    Rmax (snd (last p s0) - snd s0) 0 + w * d (fst s0) (fst (last p s0)) <= cost_work RA S d w (s0 :: p).
+  Proof.
+    intros Hw. destruct (cost_work_lower_bounds S d d_nonneg w p s0 Hw) as (H1 & H2).
+    pose proof (plen_ge_direct S d d_refl d_tri (map fst p) (fst s0)) as G. rewrite last_map_fst in G. cbn [map] in H1, H2.
+    assert (W : w * d (fst s0) (fst (last p s0)) <= w * plen S d (fst s0 :: map fst p)) by (apply Rmult_le_compat_l; assumption).
+    unfold Rmax. destruct (Rle_dec (snd (last p s0) - snd s0) 0); lra.
+  Qed.
+End WorkMetric.
+(* the motion cost of mechanical work depends on the direction: between a state of cost 0 and a state of cost 1 at distance 1,
+   climbing costs 1 + w and descending costs w — isSymmetric() has to answer false for this objective *)
+Lemma work_motion_not_symmetric : forall w, work_motion RA unit (fun _ _ => 1) w (tt, 0) (tt, 1) <> work_motion RA unit (fun _ _ => 1) w (tt, 1) (tt, 0).
+Proof.
+  intros w. unfold work_motion, fmax. cbn [F f0 fsub fmul fadd flt RA fst snd].
+  destruct (Rltb_spec (1 - 0) 0); destruct (Rltb_spec (0 - 1) 0); cbv iota; lra.
+Qed.
 
 (* ---- minimax objectives: the path cost is the worst evaluated state cost (or the identity) ---- *)
 Section MinimaxR.
